@@ -356,6 +356,10 @@ def scenarios(ctx):
                    decodes_to=content),
           ToolScen("unzck", "unzck", ["f.zck"], [("f.zck", fzd)], "f.zck:i,f:o", ["f"]),
           ToolScen("unzck-dict", "unzck", ["--dict", "f.zck"], [("f.zck", fzd)], "f.zck:i,f.zdict:o", ["f.zdict"]),
+          # the tools' own copy loops: unzck --header (raw copy of header + dictionary), and zck -s on an input so small that two
+          # deviations are explored - a split string whose prefix arrives in three reads
+          ToolScen("unzck-header", "unzck", ["--header", "f.zck"], [("f.zck", fzd)], "f.zck:i,f.zhr:o", ["f.zhr"]),
+          ToolScen("zck-split-tiny", "zck", ["-s", "abcd", "in.bin"], [("in.bin", b"xxxxabcXtail")], "in.bin:i,in.bin.zck:o", ["in.bin.zck"], decodes_to=b"xxxxabcXtail"),
           ToolScen("unzck-stdout", "unzck", ["-c", "f.zck"], [("f.zck", fn)], "f.zck:i", [], check_stdout=True),
           ToolScen("zck_read_header", "zck_read_header", ["-c", "f.zck"], [("f.zck", fzd)], "f.zck:i", [], check_stdout=True)]
     return S
